@@ -9,7 +9,7 @@ DOMAIN_T = f"""(define (domain w)
 (:types t1 t3 - object t2 - t1)
 (:constants c - t1)
 (:predicates (r) (p ?a - t1) (q ?a - t1 ?b - t1) (m ?a - object) (s ?a - t2) (u ?a - t1 ?b - t1 ?c - t3))
-(:functions (f) (g ?a - t1) (h ?a - t1 ?b - t1) (k ?a - t2) (w ?a - t1 ?b - t1 ?c - t3))
+(:functions (f) (g ?a - t1) (h ?a - t1 ?b - t1) (k ?a - t2) (w ?a - t1 ?b - t1 ?c - t3) (tr ?a - t1 ?b - t1 ?c - t1))
 (:action a :parameters (?x - t1) :precondition (and (p ?x)) :effect (and (not (p ?x)))))
 """
 # the same names with a FLAT hierarchy: t2 is not below t1 here (a stale cross-domain subtype answer would show)
@@ -24,7 +24,7 @@ DOMAIN_U = """(define (domain w)
 OBJ_T = {"o1": "t1", "o2": "t2", "o3": "t3"}
 OBJ_U = {"o1": "object", "o2": "object"}
 SIG_T = {"r": [], "p": ["t1"], "q": ["t1", "t1"], "m": ["object"], "s": ["t2"], "u": ["t1", "t1", "t3"]}
-FSIG_T = {"f": [], "g": ["t1"], "h": ["t1", "t1"], "k": ["t2"], "w": ["t1", "t1", "t3"]}
+FSIG_T = {"f": [], "g": ["t1"], "h": ["t1", "t1"], "k": ["t2"], "w": ["t1", "t1", "t3"], "tr": ["t1", "t1", "t1"]}
 PARENT = {"t1": "object", "t2": "t1", "t3": "object", "object": None}
 NUMERALS = ["0", "7", "-3", "2.5", "-0.25", "1e2", "2.5e-1", "12345.678", "2.5e-7", "0.0000123456"]
 
@@ -84,7 +84,7 @@ def valid_problems(tier):
         allobjs = dict(objs)
         allobjs["c"] = "t1" if typed else "object"
         atoms = [a for a in ground(SIG_T, allobjs, typed) if a[0] != "u"]
-        fluents = [f for f in ground(FSIG_T, allobjs, typed) if f[0] != "w"]
+        fluents = [f for f in ground(FSIG_T, allobjs, typed) if f[0] not in ("w", "tr")]
         decls = list(object_decls(objs, typed))
         kmax = 3 if tier == "quick" else 4
         fl_menu = [{}, {("f",): "7"}, {("g", "o1"): "2.5", ("h", "o1", "o1"): "-3"},
@@ -117,6 +117,11 @@ def valid_problems(tier):
             yield {"kind": "valid", "typed": typed, "objects": objs, "decl": tag, "objs_text": otext,
                    "atoms": [["p", "o1"]], "fluents": {"f": "1", "g o1": "2", "g o2": "0", "h o1 o1": "0"},
                    "goals": [list(a) for a in sel], "numgoals": ng}
+    # three-place fluents whose arguments repeat an object (all equal; adjacent; not adjacent)
+    for key in ("tr o1 o1 o1", "tr o1 o1 o2", "tr o2 o1 o1", "tr o1 o2 o1", "tr o1 o2 c"):
+        yield {"kind": "valid", "typed": True, "objects": dict(OBJ_T), "decl": "one-by-one",
+               "objs_text": " ".join(f"{n} - {t}" for n, t in OBJ_T.items()), "atoms": [["p", "o1"]],
+               "fluents": {key: "5", "f": "1"}, "goals": [], "numgoals": [], "tag3": key}
     # goals made of numeric conditions only
     for ng in ([NUM_GOALS[0]], [NUM_GOALS[1], NUM_GOALS[3]], list(NUM_GOALS)):
         yield {"kind": "valid", "typed": True, "objects": dict(OBJ_T), "decl": "one-by-one",
@@ -171,6 +176,11 @@ def corruptions(tier):
         yield args[:-1], "arity-1"
         yield args + ["o1"], "arity+1"
 
+    # an object declared by other problems over the same Domain object, but not by this one
+    small = "o1 - t1 o3 - t3"
+    for init, goal, what in (("(p o2)", "", "atoms:p:object-of-earlier-problem"), ("(q o1 o2)", "", "atoms:q:object-of-earlier-problem"),
+                             ("(= (g o2) 1)", "", "fluent:g:object-of-earlier-problem"), ("(p o1)", "(s o2)", "goals:s:object-of-earlier-problem")):
+        yield {"kind": "corrupt", "what": what, "base": -1, "text": render(small, [init], [goal] if goal else [])}
     for bi, b in enumerate(BASES):
         yield {"kind": "corrupt", "what": "wrong-domain", "text": text(b, domain="other"), "base": bi}
         yield {"kind": "corrupt", "what": "undeclared-object-type", "base": bi,
